@@ -123,6 +123,10 @@ func drawStates(r *core.Run, n int, liveBias bool) []kmspb.CryptoKeyVersion_Cryp
 	}
 	if mode == 2 && n > 0 {
 		out[livePos] = []kmspb.CryptoKeyVersion_CryptoKeyVersionState{kmspb.CryptoKeyVersion_ENABLED, kmspb.CryptoKeyVersion_DISABLED, kmspb.CryptoKeyVersion_PENDING_GENERATION}[r.Intn(3, "live-state")]
+		if out[livePos] == kmspb.CryptoKeyVersion_ENABLED && livePos < n-1 && r.Chance(40, "generation-pending-later?") {
+			// an interrupted rotation left a version that is still generating, listed after the enabled one
+			out[livePos+1+r.Intn(n-1-livePos, "pending-pos")] = kmspb.CryptoKeyVersion_PENDING_GENERATION
+		}
 		if livePos < n-1 && r.Chance(30, "import-pending-later?") {
 			// a version whose key material is still to be imported, listed after the live one
 			out[n-1] = kmspb.CryptoKeyVersion_PENDING_IMPORT
